@@ -14,7 +14,9 @@ import checks_table
 
 SHOW = [("std2", "3,4;1,1;2,5;9,2", "0,0,1,2"), ("std2", "4,3;1,7", "1,0,1,2"), ("std3", "3,4,2;1,6,9;2,2,2", "0,0,1,2"),
         ("std3", "3,5,4;8,1,3", "1,1,0,2"), ("std3", "2,3,2;7,7,1", "0,0,0,2"), ("deadsb3", "3,4,2;2,9,5", "0,0,1,2"),
-        ("deadbtn3", "3,4,2;5,2,3", "1,0,1,2"), ("std4", "2,3,4,3;9,1,1,4", "0,2,1,2"), ("std5", "2,3,2,3,2;6,1,4,2,5", "0,0,1,2")]
+        ("deadbtn3", "3,4,2;5,2,3", "1,0,1,2"), ("std4", "2,3,4,3;9,1,1,4", "0,2,1,2"), ("std5", "2,3,2,3,2;6,1,4,2,5", "0,0,1,2"),
+        # a seat holding two positions under a dealer blind: heads-up (dealer + sb) and the dead button (sb + dealer)
+        ("std2", "5,6;3,9", "0,1,1,2"), ("deadbtn3", "6,7,5;3,3,8", "0,2,1,2")]
 SHOW_T = [("std3", "5,9,7;6,3,8;12,1,30", "0,0,1,2"), ("std4", "3,4,5,2;2,2,6,3", "1,0,1,2"), ("deadbtn4", "3,2,4,3;4,4,2,5", "1,0,1,2"),
           ("std5", "9,3,2,7,2;3,1,4,2,5", "1,0,1,2")]
 
